@@ -327,6 +327,13 @@ func (o *oracle) checkMsg(fc *fileCtx, scopePath []string, kind string, virt, pr
 			if df.Opt3 {
 				o.fail("C02 optional array / map marked proto3_optional (repeated field in a synthetic oneof)", "declared cardinality and optionality", fmt.Sprintf("%s: %s proto3_optional", fat, df.Label), "repeated, not proto3_optional")
 			}
+		} else if kind == "oneof" && p.Optional {
+			// every option of a oneof is optional already; a member of the wrapper's oneof
+			// cannot be in a synthetic oneof of its own (fix a0446fc)
+			want.Opt3 = false
+			if df.Opt3 {
+				o.fail("C02 optional oneof option marked proto3_optional (member of a real oneof)", "declared optionality and oneof membership", fmt.Sprintf("%s: proto3_optional", fat), "not proto3_optional")
+			}
 		} else if df.Opt3 != want.Opt3 {
 			o.fail("C02 field optionality (proto3_optional)", "declared optionality", fmt.Sprintf("%s: %v", fat, df.Opt3), fmt.Sprint(want.Opt3))
 		}
